@@ -363,6 +363,20 @@ def group_cases(rng, quick):
         yield dict(cols=['a', 'b', 'c'], rows=rows, by=by, how='args')
 
 
+def named_cases(rng, quick):
+    """(4) column names that coincide with parameter names used inside the implementation (read from the source under test): as the key column,
+    as a value column, as one of two key columns"""
+    from rac.common import implementation_identifiers
+    for n in implementation_identifiers():
+        if n in ('a', 'b', 'c', 'grp'):
+            continue
+        pool = rng.sample(PLAIN, 2)
+        rows = [[rng.choice(pool), rng.choice(pool), i] for i in range(rng.choice([3, 4]))]
+        yield dict(cols=[n, 'b', 'c'], rows=rows, by=[n], how='args')
+        yield dict(cols=['a', n, 'c'], rows=rows, by=['a'], how=rng.choice(['args', 'list']))
+        yield dict(cols=['a', n, 'c'], rows=rows, by=['a', n], how='args')
+
+
 def pivot_cases(rng, quick):
     xs_opts = ['a', ['a'], ['a', 'b']]
     yield dict(cols=['a', 'b', 'y', 'z'], rows=[], x='a', agg=None)
@@ -398,11 +412,12 @@ def run(tier, seed):
     quick = tier == 'quick'
     c = Collector('C11', rule='listby/groupby: tables a, b, c (c = row number): column a through EVERY list of <= %d cells over {None, 1, 1.0, 2, "a", "b", datetime} (b seeded) keyed by a, '
                   '(a,b) and other subsets; seeded 4-5 row tables with duplicate mixed-type keys x all six non-empty proper key subsets (args and list spelling, custom grp name); '
-                  'seeded tables with one or two distinct NaN objects among the keys. pivot/unpivot: tables a, b, y, z: every (a, y) column pair of <= 3 rows over a in {1, 1.0, "a", None}, '
+                  'seeded tables with one or two distinct NaN objects among the keys; key / value columns named like every parameter of a function or lambda in _dictable / _dict / _dictattr / _perdictable '
+                  '(names read from the source under test). pivot/unpivot: tables a, b, y, z: every (a, y) column pair of <= 3 rows over a in {1, 1.0, "a", None}, '
                   'y in {"p", 1, None}; seeded <= 5 row tables with y over {"p","q",1,2.5,datetime,None}, x in {"a", ["a"], ["a","b"]}, agg in {None,last,first,len,[sorted,first]}, z a column or a callable; '
                   'the empty table. Non-trivial when the table has >= 2 rows; distinct by (rows, keys, options).' % (3 if quick else 4),
                   exhaustive=False, scope='<= 5 rows; 1-2 key columns of 3; mixed-type key cells incl. two NaN identities; exhaustive for column a <= %d rows without NaN' % (3 if quick else 4))
-    for kind_, gen, ev in (('group', group_cases, eval_group), ('pivot', pivot_cases, eval_pivot)):
+    for kind_, gen, ev in (('group', group_cases, eval_group), ('pivot', pivot_cases, eval_pivot), ('group', named_cases, eval_group)):
         for case in gen(rng, quick):
             case['kind'] = kind_
             try:
